@@ -288,7 +288,8 @@ pub fn run(thorough: bool, seed: u64, driver: &str, rep: &mut Report) {
     // random set/get sequences against a plain n x n table
     for _ in 0..(if thorough { 2000 } else { 200 }) {
         let n = rng.range(2, 25);
-        let t = taxa(n);
+        let mut t = taxa(n);
+        let mut relabels = 0;
         let mut m = DistanceMatrix::new(t.clone(), &vec![0.0; tri(n)]);
         let mut table = vec![vec![0i64; n]; n];
         let new_cmd = format!("mx.new\t{}\t{}", enc_taxa(&t), enc_cells(&vec![0.0; tri(n)]));
@@ -296,6 +297,43 @@ pub fn run(thorough: bool, seed: u64, driver: &str, rep: &mut Report) {
         let mut script = new_cmd.clone();
         for _ in 0..30 {
             let (i, j) = (rng.below(n), rng.below(n));
+            if rng.chance(1, 8) {
+                // relabel (`set_taxa`) in the middle of the sequence, i.e. AFTER by-name lookups were made on this object:
+                // a permutation of the current labels, fresh labels, or (refused) a list of the wrong length; the plain
+                // table is positional, so every later by-name access must resolve through the NEW labels
+                let mut t2: Vec<String> = match rng.below(3) {
+                    0 => { let mut v = t.clone(); rng.shuffle(&mut v); v }
+                    1 => { relabels += 1; (0..n).map(|k| format!("r{relabels}_{k}")).collect() }
+                    _ => { let mut v = t.clone(); v.rotate_left(1); v }
+                };
+                let wrong = rng.chance(1, 6);
+                if wrong {
+                    t2.push("extra".into());
+                }
+                let r = m.set_taxa(t2.clone());
+                let cmd = format!("mx.settaxa\t{}", enc_taxa(&t2));
+                script.push('\n');
+                script.push_str(&cmd);
+                q.push(&script, cmd.clone(), if r.is_ok() { "ok".into() } else { "err".into() });
+                if r.is_ok() != !wrong {
+                    rep.oracle("set-taxa", if wrong { "wrong-length-accepted" } else { "refused" }, &script, &format!("{r:?}"));
+                }
+                if r.is_ok() {
+                    t = t2;
+                    if m.taxa != t {
+                        rep.oracle("set-taxa", "labels-not-replaced", &script, &format!("{:?}", m.taxa));
+                    }
+                }
+                rep.count("relabel_ops");
+                // positional views must agree with by-name reads through the current labels
+                for ((a, b), v) in m.indexed_iter() {
+                    if a >= n || b >= n || table[a][b] != *v as i64 || res_get(&m, &t[a], &t[b]) != format!("ok {}", *v as i64) {
+                        rep.oracle("sequence", "indexed-iter-vs-get-after-relabel", &script, &format!("({a},{b})={v}"));
+                        break;
+                    }
+                }
+                continue;
+            }
             if rng.chance(1, 2) {
                 let v = rng.range(1, 999) as i64;
                 let r = m.set(&t[i], &t[j], v as f64);
